@@ -1831,7 +1831,12 @@ class _CollectionAttributeImpl(_HasCollectionAdapter, _AttributeImpl):
         key: Optional[Any],
     ) -> None:
         if self.trackparent and value is not None:
-            self.sethasparent(instance_state(value), state, False)
+            # a list may name the member more than once (also transiently,
+            # e.g. between the two item assignments of a tuple swap); the
+            # member keeps its parent until the last occurrence goes
+            coll = dict_.get(self.key)
+            if not isinstance(coll, list) or not util.has_dupes(coll, value):
+                self.sethasparent(instance_state(value), state, False)
 
         for fn in self.dispatch.remove:
             fn(state, value, initiator or self._remove_token, key=key)
